@@ -640,6 +640,8 @@ def history_case(draw, tier):
             warm["states"] = [draw(gen.state_case((case["shape"],))) for _ in case["states"]]
         warm["counts"] = draw(counts_st(ns, no))
         case["warmup"] = warm
+    # a caller that keeps ONE weights list and edits it in place between the configurations (re-weighting loop)
+    case["shared_weights"] = draw(st.booleans())
     return case
 
 
@@ -947,6 +949,7 @@ def run_history(case, ctx, impls):
             L.set_from_standard_qtomography_option_data(qt_alt, make_option(ocls, "identity", None), data0, True, impl == "generic")
         ctx.label("warmup:other-tomography")
     prev_key = None
+    shared_lists = {}
     for i, step in enumerate(case["steps"]):
         data = data_from_counts(step["counts"])
         qs = [q for _, q in data]
@@ -966,6 +969,12 @@ def run_history(case, ctx, impls):
         for impl in impls:
             L, ocls = objs[impl]
             wts = weights_for(loss, step["weights"], ns, no) if step["mode"] == "custom" else None
+            if wts is not None and case.get("shared_weights"):
+                kept = shared_lists.setdefault(impl, [])
+                if kept:
+                    ctx.label("weights:same-list-edited-in-place")
+                kept[:] = list(wts)
+                wts = kept
             try:
                 opt = make_option(ocls, step["mode"], wts, step.get("implicit", False))
             except ValueError:
